@@ -66,7 +66,7 @@ SIGS = {
         },
         'venvs': {'everb': 'body'},
         'specials': ['~', '--', '---'],
-        'syms': ['mz', 'zz'],          # zz is unknown: needs the fallback spec
+        'syms': ['mz', 'zz', 'setx'],  # zz is unknown: needs the fallback spec; setx returns an after-delta
         'unknown': ['zz'],
         'cs_args': ['mz'],
         'verb': False,
